@@ -121,6 +121,16 @@ def _implies_positive(test: ast.AST, name: str) -> Optional[bool]:
     return None
 
 
+def _mentions_count(f: FuncInfo, bound: ast.AST) -> bool:
+    """The bound mentions a local that is defined as int(<expression>) (an entry count computed from a fraction)."""
+    names = {x.id for x in ast.walk(bound) if isinstance(x, ast.Name)}
+    for n in ast.walk(f.node):
+        if isinstance(n, ast.Assign) and isinstance(n.value, ast.Call) and isinstance(n.value.func, ast.Name) and \
+                n.value.func.id == "int" and any(isinstance(t, ast.Name) and t.id in names for t in n.targets):
+            return True
+    return False
+
+
 def _defs_positive(f: FuncInfo, name: str) -> bool:
     """Every definition of `name` in the function is a positive constant or max(<positive const>, ...)."""
     defs = [n.value for n in ast.walk(f.node) if isinstance(n, ast.Assign) and any(
@@ -137,7 +147,7 @@ def _defs_positive(f: FuncInfo, name: str) -> bool:
     return True
 
 
-@rule("R-NEGSLICE", floor=1, witness_min=1)
+@rule("R-NEGSLICE", floor=1, witness_min=1)  # floor counts computed-count slices of either sign
 def r_negslice(ctx: RuleCtx, col: Collector):
     """A slice bound `-n` with a computed count n that may be 0: `a[-n:]` then selects *everything* and `a[:-n]`
     nothing.  n must be a positive constant or the slice must be dominated by a test implying n >= 1."""
@@ -149,6 +159,13 @@ def r_negslice(ctx: RuleCtx, col: Collector):
                 continue
             for bound, which in ((n.lower, "lower"), (n.upper, "upper")):
                 if not (isinstance(bound, ast.UnaryOp) and isinstance(bound.op, ast.USub)):
+                    # a computed count used without a sign flip (a[:n], a[size-n:]) degrades gracefully for n == 0
+                    if bound is not None and _mentions_count(f, bound):
+                        sub0 = parent(n)
+                        while sub0 is not None and not isinstance(sub0, ast.Subscript):
+                            sub0 = parent(sub0)
+                        col.ok(where_of(f), f.rel, line_of(bound), stmt_key(sub0 if sub0 is not None else n),
+                               "computed count used as a non-negated slice bound: a zero count selects nothing")
                     continue
                 operand = bound.operand
                 if isinstance(operand, ast.Constant):
